@@ -134,6 +134,12 @@ def plain_endings(chk, tier, wd):
         for cls in lp.PERSISTENT:
             for name, sp, exp, ak in PERS_ENDINGS:
                 jobs.append((cls, name + '/' + via, dict(sp, cls=cls, quiet=False, observe_via=via), exp, ak))
+    # the final user_state (not the result) is what cannot be rebuilt in the parent: the outcome must be definite all the same
+    for via in ('wait', 'mixed'):
+        for cls in ('StatefulProcessWorker', 'StatefulRemoteWorker'):
+            jobs.append((cls, 'state-unrebuildable/' + via, dict(cls=cls, target='ret_value', targs=['$DIR', [1, {'__onlyhere__': 1}], 'return'], quiet=False, observe_via=via), ('any',), True))
+        for cls in ('StatefulPersistentProcessWorker', 'StatefulPersistentRemoteWorker'):
+            jobs.append((cls, 'p-state-unrebuildable/' + via, dict(cls=cls, target='ret_value', targs=[], inputs=[['$DIR', [1], 'return'], ['$DIR', [{'__onlyhere__': 1}], 'return']], quiet=False, observe_via=via), ('any',), True))
     # main-script classes (value class / exception class defined in the launching script)
     for cls in lp.ONE_SHOT:
         jobs.append((cls, 'main-return-MainVal', dict(cls=cls, target='main:main_ret', targs=[3], quiet=False, script=True), ('value', 'MainVal(3)'), True))
